@@ -147,10 +147,11 @@ AttemptEnd ==
 InvBegin == /\ Is("inv.begin") /\ Adv /\ obs' = NoObs /\ UNCHANGED <<scen, viol, words, wpos, fz, res, pr, kind, runno, iter>>
 \* A rejection (duplicate element, skipped Repeat action) after which the repeat has enough rejections and its minimum count is reached makes it
 \* STOP (utils.go: reject sets forceStop; RepeatSM!Reject); the test case stays valid.  The harness reports whether such a rejection was the
-\* last thing the repeat did before the invocation unwound (fewer than forceStopTries = 1000 coins later: the forced stop itself may give up).
+\* last thing the repeat did before the invocation unwound -- not even one coin was flipped afterwards (the forced stop, which waits for a coin
+\* that stops by itself, may give up after many; how many is not this specification's business).
 InvEnd == /\ Is("inv.end") /\ Adv
           /\ obs' = [obs EXCEPT !.ended = IF Ev.how = "ret" THEN "ret" ELSE IF Ev.last = "skip" THEN "skip" ELSE "unwind"]
-          /\ viol' = viol \cup If("rejpend" \in DOMAIN Ev /\ Ev.rejpend /\ Ev.rejcoins < 1000 /\ Ev.how # "ret" /\ ~obs.overrun /\ obs.sig = "none",
+          /\ viol' = viol \cup If("rejpend" \in DOMAIN Ev /\ Ev.rejpend /\ Ev.rejcoins = 0 /\ Ev.how # "ret" /\ ~obs.overrun /\ obs.sig = "none",
                                   "rejection_invalidates")
           /\ UNCHANGED <<scen, words, wpos, fz, res, pr, kind, runno, iter>>
 
